@@ -15,8 +15,13 @@ from vlib import core
 
 QUICK = dict(Versions="{1, 2}", Counts="{0, 1, 2, 3}", Degrees="{0, 1, 2, 3}", FracBits="{0, 12, 24, 30}",
              Patterns='{"perm", "ff", "80", "7f80"}', Frames='{"stored0", "deflate"}', CloudCounts="{0, 1, 2}",
-             Profiles="{1, 2, 3, 4, 5}")
-THOROUGH = dict(QUICK, Counts="{0, 1, 2, 3, 4, 5}", FracBits="{%s}" % ", ".join(str(i) for i in range(31)),
+             Profiles="{1, 2, 3, 4, 5}", EdgeCounts="{15}",
+             # FbLadderSet of SplatFormat.tla (checked against it by DeliveryFull.cfg's ASSUME-free twin below)
+             FbLadder="{0, 1, 6, 7, 8, 9, 14, 15, 16, 17, 22, 23, 24, 25, 30, 31, 32, 33, 62, 63, 64, 65, 126, 127, 128, 129, 255}",
+             Grans="{32768, 4096, 509}", LadderFrames='{"deflate"}', Deliveries="{0, 1, 7, 4096, 100001, 100013}")
+THOROUGH = dict(QUICK, EdgeCounts="{15, 30}", FbLadder="{%s}" % ", ".join(str(i) for i in range(256)),
+                Grans="{65536, 32768, 4096, 509, 61}", LadderFrames='{"deflate", "stored0"}',
+                Deliveries="{0, 1, 2, 7, 31, 4096, 100001, 100013, 100512}", Counts="{0, 1, 2, 3, 4, 5}", FracBits="{%s}" % ", ".join(str(i) for i in range(31)),
                 Patterns='{"perm", "perm2", "ff", "80", "00", "7f80"}', Frames='{"stored0", "stored5", "deflate"}',
                 CloudCounts="{0, 1, 2, 3}")
 
@@ -26,7 +31,26 @@ def gen_cfg(path, consts):
         f.write("CONSTANTS\n")
         for k, v in consts.items():
             f.write("  %s = %s\n" % (k, v))
-        f.write("SPECIFICATION Spec\nINVARIANTS Emit Tiles Ordered HalfLaw\nCHECK_DEADLOCK FALSE\n")
+        f.write("SPECIFICATION Spec\nINVARIANTS Emit Tiles Ordered HalfLaw LadderLaw EdgeLaw\nCHECK_DEADLOCK FALSE\n")
+
+
+def design_level(ctx):
+    """SplatDelivery.tla: a decoder that completes every array (ReadFull) denotes the same cloud under every
+    delivery; the single-Read design has a counterexample, and the size ladder hits exactly that design."""
+    d = ctx.scratch("delivery")
+    r = core.run_tlc(d, "SplatDelivery", "SplatDeliveryFull.cfg", workers=2, timeout=900)
+    ctx.add_tlc(r)
+    if r.rc != 0:
+        raise core.Infra("SplatDelivery: the ReadFull design violates %s (specification bug)" % r.violated)
+    r = core.run_tlc(d, "SplatDelivery", "SplatDeliveryOnce.cfg", workers=2, timeout=900)
+    ctx.add_tlc(r)
+    if r.rc != 0:
+        raise core.Infra("SplatDelivery: the size ladder does not hit the single-Read design: %s (specification bug)" % r.violated)
+    r = core.run_tlc(d, "SplatDelivery", "SplatDeliveryOnceWhole.cfg", workers=2, timeout=900)
+    ctx.add_tlc(r)
+    if r.rc == 0 or r.violated != "Whole":
+        raise core.Infra("SplatDelivery: the single-Read design must violate Whole, got rc=%s %s" % (r.rc, r.violated))
+    ctx.extra["design_delivery_once_counterexample"] = 1
 
 
 def every_line(ln):
@@ -57,7 +81,16 @@ def judge(ctx, name, raw):
 def discriminator(ln, pred):
     if ln["k"] == "spz":
         h = ln["hdr"]
-        return "v%d" % h[0]
+        tag = "v%d" % h[0]
+        if h[0] == 2 and pred == "C15.SpzPos" and h[3] > 30:
+            tag += "/fb=31..62" if h[3] <= 62 else "/fb>=63"
+        if ln.get("la"):
+            tag += "/%s@%d" % (ln["la"], ln["lg"])
+        elif ln.get("dl") and "/" not in tag:
+            tag += "/dl"
+        return tag
+    if ln.get("dl"):
+        return "dl"
     return "n=0" if ln["n"] == 0 else ("n=1" if ln["n"] == 1 else "n>1")
 
 
@@ -72,8 +105,11 @@ def report(ctx, findings, cases_by_id, source):
             sig = "%s/%s/%s" % (p, {"spz": "spz.Read", "splat": "splat.Write+Read", "sply": "SplatPly.Write+ReadMesh"}[ln["k"]],
                                 discriminator(ln, p))
             if ln["k"] == "spz":
-                what = "%s: SPZ stream version %d, %d points, SH degree %d, %d fractional bits (%s framing): %s" % (
-                    p, ln["hdr"][0], ln["hdr"][1], ln["hdr"][2], ln["hdr"][3], ln["frame"], ln.get("msg") or "decoded fields differ from the layout law")
+                what = "%s: SPZ stream version %d, %d points, SH degree %d, %d fractional bits (%s framing, content %s, file delivered %s%s): %s" % (
+                    p, ln["hdr"][0], ln["hdr"][1], ln["hdr"][2], ln["hdr"][3], ln["frame"], ln.get("pat") or "random bytes",
+                    "at once" if not ln.get("dl") else "in pieces (code %d)" % ln["dl"],
+                    "; a multiple of %d falls inside the %s array" % (ln["lg"], ln["la"]) if ln.get("la") else "",
+                    ln.get("msg") or "decoded fields differ from the layout law")
             else:
                 what = "%s: cloud of %d splats (%s) %s" % (p, ln["n"], source, ln.get("msg", ""))
             ctx.violation(sig, what, {"family": "splat", "case": cases_by_id[ln["id"]]})
@@ -92,9 +128,22 @@ def account(ctx, raw):
                 ex["spz_fields_judged"] = ex.get("spz_fields_judged", 0) + h[1] * (3 + 1 + 3 + 3 + 4) + 3 * h[1] * {0: 0, 1: 3, 2: 8, 3: 15}[h[2]]
                 if h[2] > 0:
                     ex["spz_with_sh"] = ex.get("spz_with_sh", 0) + 1
+            if h[0] == 2 and h[1] > 0 and h[3] > 30:
+                ex["spz_fracbits_above_30"] = ex.get("spz_fracbits_above_30", 0) + 1
+            if ln.get("la"):
+                ex["spz_size_ladder_streams"] = ex.get("spz_size_ladder_streams", 0) + 1
+                ex["spz_size_ladder_max_points"] = max(ex.get("spz_size_ladder_max_points", 0), h[1])
+                if ln["lg"] == 32768 and ln["la"] == "alpha":
+                    ex["spz_alpha_across_inflate_window"] = ex.get("spz_alpha_across_inflate_window", 0) + 1
+            if ln.get("pat") == "edge" and h[1] > 0:
+                ex["spz_boundary_value_streams"] = ex.get("spz_boundary_value_streams", 0) + 1
+            if ln.get("dl"):
+                ex["spz_delivered_in_pieces"] = ex.get("spz_delivered_in_pieces", 0) + 1
             if any(p[0] != 0 for row in ln["dec"]["pos"] for p in row):
                 ex["spz_nonfinite_halfs_judged"] = ex.get("spz_nonfinite_halfs_judged", 0) + 1
         elif k == "splat":
+            if ln.get("dl") and ln["n"] > 0:
+                ex["clouds_delivered_in_pieces"] = ex.get("clouds_delivered_in_pieces", 0) + 1
             ex["splats_round_tripped"] = ex.get("splats_round_tripped", 0) + ln["n"]
             for o in ln["orig"]:
                 if any(c < 0 or c > 255000 for c in o["c"]):
@@ -110,6 +159,7 @@ def account(ctx, raw):
 def run(ctx):
     quick = ctx.tier == "quick"
     vh = core.build_vh()
+    design_level(ctx)
     d = ctx.scratch("gen")
     gen_cfg(os.path.join(d, "Gen.cfg"), QUICK if quick else THOROUGH)
     r = core.run_tlc(d, "SplatGen", "Gen.cfg", files=[(os.path.join(d, "Gen.cfg"), "Gen.cfg")],
@@ -156,18 +206,25 @@ def run(ctx):
             os.remove(rp)
     # vacuity guards: each predicate family met its antecedent
     for key in ("spz_nonempty_v1", "spz_nonempty_v2", "spz_with_sh", "spz_nonfinite_halfs_judged", "splats_round_tripped",
-                "splat_colours_clamped", "splat_rot_components_pm1", "ply_with_45_f_rest", "ply_cells_judged"):
+                "splat_colours_clamped", "splat_rot_components_pm1", "ply_with_45_f_rest", "ply_cells_judged",
+                "spz_fracbits_above_30", "spz_size_ladder_streams", "spz_alpha_across_inflate_window",
+                "spz_boundary_value_streams", "spz_delivered_in_pieces", "clouds_delivered_in_pieces"):
         if not ctx.extra.get(key):
             raise core.Infra("vacuous run: %s = 0" % key)
+    if ctx.extra["spz_size_ladder_max_points"] < 3276:
+        raise core.Infra("vacuous run: no stream reaches the inflate window inside its arrays")
     ctx.sample({k: cases[len(cases) // 2][k] for k in cases[len(cases) // 2] if k != "pay"})
     ctx.sample({k: cases[-1][k] for k in cases[-1] if k != "pay"})
     ctx.rule = ("a case is an SPZ stream (header x byte pattern x gzip framing; TLC enumerates all headers within the "
-                "constants, seeded random headers with up to 50 points and random bytes) or a splat cloud (TLC: 0..2 "
+                "constants; boundary-value streams; the fractional-bit ladder; size-ladder streams whose point count the layout model "
+                "computes so that a multiple of a delivery granularity falls inside a given array; files delivered in pieces; "
+                "seeded random headers with up to 50 points and random bytes) or a splat cloud (TLC: 0..2 "
                 "splats from edge-value tables; seeded: 0..50 splats with random finite attributes) run through "
                 ".splat write/read and the splat PLY export; non-trivial = at least one splat")
     ctx.assumptions += [
         "rotation components lie in [-1, 1] (unit quaternions); scales within |s| <= 80 so that exp(s) is a normal float32",
-        "SPZ fractional bits 0..30 (the published reference shifts a 32 bit int)",
+        "SPZ fractional bits over the whole 8 bit field 0..255: the dequantised value is fixed24 * 2^-fb exactly (a float64 holds it for every fb)",
+        "delivery: pieces ending at multiples of g, optionally io.EOF together with the last piece (the io.Reader contract); the inflate reader's own pieces end at multiples of 32768 of the stream",
         "SPZ alpha is judged against the code's own raw a/255 (DESIGN C15: the published inverse sigmoid is a decoding convention, not layout)",
         "float32(x), exp, log, sigmoid of the Go runtime are the unit conversions of the projection (harness/splatfam)",
         "gzip framing by the reference encoder (stored blocks) and by the standard library compressor",
